@@ -82,51 +82,13 @@ def run(ctx):
     ctx.add("C01.R2", "sta_rs::Ciphertext#output-is-cipher-output", lens_ok and Q.contains(enc, lambda t: t.op == "owf") and Q.contains(dec, lambda t: t.op == "owf"),
             "both directions must return Strobe cipher output", at)
 
-    # ---- R3 ADSS cipher agreement -------------------------------------------------------------------------
-    SH = "adss::Share"
-    sC, sD = fidx(ctx, SH, "C"), fidx(ctx, SH, "D")
-    CM = "adss::Commune"
-    iM, iR = fidx(ctx, CM, "M"), fidx(ctx, CM, "R")
-    engs, rets, sts, frs = ctx.root("adss::Commune::share")
-    engr, retr, str_, frr = ctx.root("adss::recover")
-    at = ctx.fn("adss::recover").loc
-    oks, okr = ok_variant(rets, 0), ok_variant(retr, 0)
-    if oks is None or okr is None or oks[2][0].op != "agg" or okr[2][0].op != "agg":
-        ctx.add("C01.R3", "adss#shapes", False, "share / recover Ok payloads are not aggregates", at)
-    else:
-        Cc, Dd = oks[2][0].args[1 + sC], oks[2][0].args[1 + sD]
-        Mm, Rr = okr[2][0].args[1 + iM], okr[2][0].args[1 + iR]
-        def kinds(v):
-            if v.op != "owf":
-                return None
-            return [(k, d) for k, d, _ in Q.flat_ops(Q.trace_of(v.args[1]))]
-        kc, kd, km, kr = kinds(Cc), kinds(Dd), kinds(Mm), kinds(Rr)
-        ok = all(x is not None for x in (kc, kd, km, kr))
-        if ok:
-            lab = lambda k: Q.consts(Q.leaves(k[0][1])) if k and k[0][0] == "new" else None
-            ok_label = lab(kc) == lab(kd) == lab(km) == lab(kr) and lab(kc)
-            ok_seq = [x[0] for x in kc] == ["new", "key", "send_enc"] and [x[0] for x in kd] == ["new", "key", "send_enc", "send_enc"] \
-                and [x[0] for x in km] == ["new", "key", "recv_enc"] and [x[0] for x in kr] == ["new", "key", "recv_enc", "recv_enc"]
-            ctx.add("C01.R3", "adss::Commune::share~recover#cipher-transcript", bool(ok_label) and ok_seq,
-                    "ADSS encrypts/decrypts message then coins under one keyed transcript with the same label on both sides; "
-                    "found share C=%s D=%s recover M=%s R=%s labels %s/%s" % ([x[0] for x in kc], [x[0] for x in kd],
-                    [x[0] for x in km], [x[0] for x in kr], lab(kc), lab(km)), at,
-                    sample={"share_D": Q.show_trace(Q.trace_of(Dd.args[1]), 3), "recover_R": Q.show_trace(Q.trace_of(Rr.args[1]), 3)})
-            # message before coins on both sides, and the decrypt side feeds C then D
-            okorder = ok_seq and Q.params(Q.leaves(kd[2][1])) == {"self.%d" % iM} and Q.params(Q.leaves(kd[3][1])) == {"self.%d" % iR}
-            if ok_seq:
-                p1 = Q.params(Q.leaves(kr[2][1]))
-                p2 = Q.params(Q.leaves(kr[3][1]))
-                okorder = okorder and all(p.endswith(".%d" % sC) for p in p1) and all(p.endswith(".%d" % sD) for p in p2) and p1 and p2
-            ctx.add("C01.R3", "adss::Commune::share~recover#message-before-coins", bool(okorder),
-                    "both sides must process the message ciphertext before the coins ciphertext", at)
-        else:
-            ctx.add("C01.R3", "adss#owf", False, "C/D/M/R are not cipher outputs: %s %s %s %s" % (S(Cc, 2), S(Dd, 2), S(Mm, 2), S(Rr, 2)), at)
+    adss_cipher_agreement(ctx, "C01.R3")
 
     # ---- R4 interpolation input ---------------------------------------------------------------------------
     recover_guards(ctx, "C01.R4")
 
     # ---- R5 deterministic polynomial ----------------------------------------------------------------------
+    engs, rets, sts, frs = ctx.root("adss::Commune::share")
     dr = Q.calls(engs, "star_sharks::Sharks::dealer_rng")
     at = ctx.fn("adss::Commune::share").loc
     if len(dr) == 1:
@@ -198,6 +160,50 @@ def run(ctx):
     ctx.floor("C01.R4", 6)
     ctx.floor("C01.R5", 1)
     ctx.floor("C01.R7", 3)
+
+
+def adss_cipher_agreement(ctx, rule):
+    # ---- R3 ADSS cipher agreement -------------------------------------------------------------------------
+    SH = "adss::Share"
+    sC, sD = fidx(ctx, SH, "C"), fidx(ctx, SH, "D")
+    CM = "adss::Commune"
+    iM, iR = fidx(ctx, CM, "M"), fidx(ctx, CM, "R")
+    engs, rets, sts, frs = ctx.root("adss::Commune::share")
+    engr, retr, str_, frr = ctx.root("adss::recover")
+    at = ctx.fn("adss::recover").loc
+    oks, okr = ok_variant(rets, 0), ok_variant(retr, 0)
+    if oks is None or okr is None or oks[2][0].op != "agg" or okr[2][0].op != "agg":
+        ctx.add(rule, "adss#shapes", False, "share / recover Ok payloads are not aggregates", at)
+    else:
+        Cc, Dd = oks[2][0].args[1 + sC], oks[2][0].args[1 + sD]
+        Mm, Rr = okr[2][0].args[1 + iM], okr[2][0].args[1 + iR]
+        def kinds(v):
+            if v.op != "owf":
+                return None
+            return [(k, d) for k, d, _ in Q.flat_ops(Q.trace_of(v.args[1]))]
+        kc, kd, km, kr = kinds(Cc), kinds(Dd), kinds(Mm), kinds(Rr)
+        ok = all(x is not None for x in (kc, kd, km, kr))
+        if ok:
+            lab = lambda k: Q.consts(Q.leaves(k[0][1])) if k and k[0][0] == "new" else None
+            ok_label = lab(kc) == lab(kd) == lab(km) == lab(kr) and lab(kc)
+            ok_seq = [x[0] for x in kc] == ["new", "key", "send_enc"] and [x[0] for x in kd] == ["new", "key", "send_enc", "send_enc"] \
+                and [x[0] for x in km] == ["new", "key", "recv_enc"] and [x[0] for x in kr] == ["new", "key", "recv_enc", "recv_enc"]
+            ctx.add(rule, "adss::Commune::share~recover#cipher-transcript", bool(ok_label) and ok_seq,
+                    "ADSS encrypts/decrypts message then coins under one keyed transcript with the same label on both sides; "
+                    "found share C=%s D=%s recover M=%s R=%s labels %s/%s" % ([x[0] for x in kc], [x[0] for x in kd],
+                    [x[0] for x in km], [x[0] for x in kr], lab(kc), lab(km)), at,
+                    sample={"share_D": Q.show_trace(Q.trace_of(Dd.args[1]), 3), "recover_R": Q.show_trace(Q.trace_of(Rr.args[1]), 3)})
+            # message before coins on both sides, and the decrypt side feeds C then D
+            okorder = ok_seq and Q.params(Q.leaves(kd[2][1])) == {"self.%d" % iM} and Q.params(Q.leaves(kd[3][1])) == {"self.%d" % iR}
+            if ok_seq:
+                p1 = Q.params(Q.leaves(kr[2][1]))
+                p2 = Q.params(Q.leaves(kr[3][1]))
+                okorder = okorder and all(p.endswith(".%d" % sC) for p in p1) and all(p.endswith(".%d" % sD) for p in p2) and p1 and p2
+            ctx.add(rule, "adss::Commune::share~recover#message-before-coins", bool(okorder),
+                    "both sides must process the message ciphertext before the coins ciphertext", at)
+        else:
+            ctx.add(rule, "adss#owf", False, "C/D/M/R are not cipher outputs: %s %s %s %s" % (S(Cc, 2), S(Dd, 2), S(Mm, 2), S(Rr, 2)), at)
+
 
 
 def recover_guards(ctx, rule):
